@@ -1,18 +1,23 @@
 import PPProofs.Props.C11
 import PPProofs.Props.C11Heap
+import PPProofs.Props.C11FromDict
 #print axioms PP.PR.copy_preserves
 #print axioms PP.PR.pickle_roundtrip
 #print axioms PP.PR.copy_same_answers
 #print axioms PP.PR.concat_is_merge
 #print axioms PP.PR.concat_assoc
-#print axioms PP.PR.concat_assoc_of_truthy
 #print axioms PP.PR.concat_empty_right
 #print axioms PP.PR.concat_empty_left
 #print axioms PP.PR.sum_is_fold
-#print axioms PP.PR.concat_assoc_fails_witness
+#print axioms PP.PR.concat_assoc_former_witness
+#print axioms PP.PR.from_dict_item_step
 #print axioms PP.PRHeap.frame_step
 #print axioms PP.PRHeap.frame_all
 #print axioms PP.PRHeap.copy_frame
 #print axioms PP.PRHeap.copyModule_frame
 #print axioms PP.PRHeap.fixOccs_fst
 #print axioms PP.PRHeap.deepcopy_named_group_aliased_witness
+#print axioms PP.FromDict.from_dict_roundtrip
+#print axioms PP.FromDict.rt_conv
+#print axioms PP.FromDict.rt_body
+#print axioms PP.FromDict.from_dict_empty_inner_dict
